@@ -42,7 +42,8 @@ pub enum TidRef {
     Next(u8),
     /// an outstanding id (by index) plus / minus a multiple of 2^32: a different number, hence an
     /// unknown transaction, which a truncating conversion to a 32-bit key would alias to it.
-    /// k: 0 => +2^32, 1 => +2^33, 2 => -2^32 (negative)
+    /// k: 0 => +2^32, 1 => +2^33, 2 => -2^32 (negative), 3 => +0.5, 4 => +0.999 (fractional: not the
+    /// number of any transaction, which a truncating conversion would round down to it)
     Aliased(u16, u8),
 }
 
@@ -314,7 +315,7 @@ fn tid_value(model: &Model, r: &TidRef) -> (f64, &'static str) {
         TidRef::Aliased(i, k) if !model.outstanding.is_empty() => {
             let ids: Vec<&u32> = model.outstanding.keys().collect();
             let base = *ids[((*i as usize) * ids.len()) >> 16] as f64;
-            (base + [4_294_967_296.0, 8_589_934_592.0, -4_294_967_296.0][*k as usize % 3], "unknown")
+            (base + [4_294_967_296.0, 8_589_934_592.0, -4_294_967_296.0, 0.5, 0.999][*k as usize % 5], "unknown")
         }
         TidRef::Next(k) => ((model.seen_tids.iter().next_back().copied().unwrap_or(0) + 1 + (*k as u32 % 3)) as f64, "unknown"),
         TidRef::Special(k) => match k % 5 {
@@ -834,7 +835,7 @@ fn eval_inner(case: &Case, clock: &Clock, ex: &mut Exec, age: &mut u64) -> Verdi
 // generators
 
 fn tid_ref() -> BoxedStrategy<TidRef> {
-    prop_oneof![7 => any::<u16>().prop_map(TidRef::Outstanding), 2 => any::<u16>().prop_map(TidRef::Answered), 2 => (0u8..5).prop_map(TidRef::Special), 2 => (0u8..3).prop_map(TidRef::Next), 1 => (any::<u16>(), 0u8..3).prop_map(|(i, k)| TidRef::Aliased(i, k))].boxed()
+    prop_oneof![7 => any::<u16>().prop_map(TidRef::Outstanding), 2 => any::<u16>().prop_map(TidRef::Answered), 2 => (0u8..5).prop_map(TidRef::Special), 2 => (0u8..3).prop_map(TidRef::Next), 1 => (any::<u16>(), 0u8..5).prop_map(|(i, k)| TidRef::Aliased(i, k))].boxed()
 }
 
 pub fn cop() -> BoxedStrategy<COp> {
@@ -955,9 +956,9 @@ pub fn spec() -> PropSpec {
     PropSpec {
         id: "C10",
         level: "exploration",
-        rule: "histories of 1..25 operations over application calls {request_connection, request_playback, request_publishing, stop_playback, stop_publishing, publish_metadata/audio/video, send_ping_request} and server messages {_result / _error with an outstanding, already-answered or unknown transaction id (0, -1, NaN, 2^33, never issued), with / without a stream id; onStatus with Play.Start, Publish.Start, another code, no code, a non-object, no argument; audio / video / onMetaData on the active or another stream; ping; acknowledgement; window size; peer chunk size; unknown commands}, encoded by the reference peer and delivered whole or cut in two; 60% of histories start behind a connected / play-requested / publishing prefix. Plus ALL sequences of length <= 4 (quick) / <= 5 (thorough) over a fixed 14-letter alphabet from scratch and of length <= 3 / <= 4 behind each of three prefixes. ModelClient judges the clauses of the statement and follows the observation where it is silent; operations that must not change anything (refused by state, answers to unknown transactions, start status in the wrong state, media for a non-active stream) are additionally removed in a twin run whose remaining observations must be identical. Non-trivial = at least one accepted step and (an operation refused by state or an answer to a non-outstanding transaction); distinct = distinct history",
+        rule: "histories of 1..25 operations over application calls {request_connection, request_playback, request_publishing, stop_playback, stop_publishing, publish_metadata/audio/video, send_ping_request} and server messages {_result / _error with an outstanding, already-answered or unknown transaction id (0, -1, NaN, 2^33, never issued, the next id to be issued, an outstanding id plus or minus 2^32 or plus a fraction), with / without a stream id; onStatus with Play.Start, Publish.Start, another code, no code, a non-object, no argument; audio / video / onMetaData on the active or another stream; ping; acknowledgement; window size; peer chunk size; unknown commands}, encoded by the reference peer and delivered whole or cut in two; 60% of histories start behind a connected / play-requested / publishing prefix. Plus ALL sequences of length <= 4 (quick) / <= 5 (thorough) over a fixed 14-letter alphabet from scratch and of length <= 3 / <= 4 behind each of three prefixes. ModelClient judges the clauses of the statement and follows the observation where it is silent; operations that must not change anything (refused by state, answers to unknown transactions, start status in the wrong state, media for a non-active stream) are additionally removed in a twin run whose remaining observations must be identical. Non-trivial = at least one accepted step and (an operation refused by state or an answer to a non-outstanding transaction); distinct = distinct history",
         assumptions: vec![
-            "ModelClient is written from the statement; don't-cares: a second play/publish request while a createStream is unanswered, a createStream result arriving while another activity is in progress, a second connect result, createStream answered by _error or without a stream id, metadata gating by state (asserted: never for a non-active stream), fractional transaction ids (never generated)",
+            "ModelClient is written from the statement; don't-cares: a second play/publish request while a createStream is unanswered, a createStream result arriving while another activity is in progress, a second connect result, createStream answered by _error or without a stream id, metadata gating by state (asserted: never for a non-active stream)",
             "each server message is delivered in its own call(s); an Err return is an acceptable refusal",
             "session-generated timestamps, ping-request payloads and Acknowledgements are masked in the twin-run comparison",
         ],
